@@ -1,10 +1,10 @@
 SPECIFICATION Spec
 CONSTANTS
-  Cap = 3
-  Horizon = 3
+  Cap = 2
+  Horizon = 2
   AsFound_NaNExitsLoop = FALSE
   AsFound_DecorativeAfterAppend = FALSE
-  AsFound_NoSweepAtBigTolerance = FALSE
+  AsFound_NoSweepAtBigTolerance = TRUE
 INVARIANT TypeOK
 INVARIANT C02_SolvedOnlyIfConverged
 INVARIANT C02_SolvedOnlyAfterSweep
@@ -14,5 +14,5 @@ INVARIANT C11_EqualLengthsAfterFailure
 INVARIANT LengthsOfSolved
 PROPERTY C11_FailureRaises
 PROPERTY C11_PrefixIntact
-CONSTRAINT Emit
+
 CHECK_DEADLOCK FALSE
